@@ -101,6 +101,9 @@ func (t *intScalar) CoerceOut(v interface{}) (interface{}, error) {
 		v = int32(tv)
 	case int:
 		v = int32(tv)
+		if int(int32(tv)) != tv {
+			err = newCoerceErr(tv, "Int")
+		}
 	case int8:
 		v = int32(tv)
 	case int16:
@@ -109,19 +112,31 @@ func (t *intScalar) CoerceOut(v interface{}) (interface{}, error) {
 		// ok as is
 	case int64:
 		v = int32(tv)
+		if int64(int32(tv)) != tv {
+			err = newCoerceErr(tv, "Int")
+		}
 	case uint:
 		v = int32(tv)
+		if math.MaxInt32 < tv {
+			err = newCoerceErr(tv, "Int")
+		}
 	case uint8:
 		v = int32(tv)
 	case uint16:
 		v = int32(tv)
 	case uint32:
 		v = int32(tv)
+		if math.MaxInt32 < tv {
+			err = newCoerceErr(tv, "Int")
+		}
 	case uint64:
 		v = int32(tv)
+		if math.MaxInt32 < tv {
+			err = newCoerceErr(tv, "Int")
+		}
 	case string:
 		var i int64
-		if i, err = strconv.ParseInt(tv, 10, 64); err == nil {
+		if i, err = strconv.ParseInt(tv, 10, 32); err == nil {
 			v = int32(i)
 		}
 	default:
